@@ -66,7 +66,7 @@ pub async fn bootstrap(s: &mut Sim, rng: &mut Rng) -> G {
     for n in &nodes {
         if rng.chance(1, 6) { s.op(Op::Airdrop(K::RdDeposit(b(n)), *rng.pick(&[1u64, 1_000_000, 2_000_000_000]))).await; }
         let ix = s.rd_initialize_deposit(&g.payer, n); s.op(tx(vec![ix])).await;
-        if rng.chance(5, 6) { s.op(Op::Airdrop(K::RdDeposit(b(n)), rng.range(1, 50) * 1_000_000_000)).await; }
+        if *n != nodes[6] && *n != nodes[7] && rng.chance(5, 6) { s.op(Op::Airdrop(K::RdDeposit(b(n)), rng.range(1, 50) * 1_000_000_000)).await; }
     }
     // contributors, managers, recipients and their ATAs
     for (i, v) in svcs.iter().enumerate() {
@@ -96,17 +96,17 @@ pub async fn bootstrap(s: &mut Sim, rng: &mut Rng) -> G {
 }
 
 fn debt_tree(s: &mut Sim, rng: &mut Rng, g: &G) -> (Tree, u64) {
-    let n = if g.big { rng.range(1, 40) } else { rng.range(1, 10) } as usize;
+    let n = if g.big { rng.range(1, 40) } else { rng.range(1, 4) } as usize;
     let mut leaves = vec![]; let mut total = 0u64;
     for _ in 0..n {
-        let amount = match rng.below(8) { 0 => 0, 1 => 1, 2 => rng.range(1, 100) * 1_000_000_000, _ => rng.range(1, 3_000_000_000) };
+        let amount = match rng.below(10) { 0 => 0, 1 => 1, 2 => rng.range(1, 100) * 1_000_000_000, _ => rng.range(1, 3_000_000_000) };
         total += amount;
         leaves.push(Leaf::Debt { node: rng.pick(&g.nodes).clone(), amount });
     }
     (s.def_tree(0, leaves), total)
 }
 fn reward_tree(s: &mut Sim, rng: &mut Rng, g: &G) -> Tree {
-    let n = if g.big { rng.range(1, 20) } else { rng.range(1, 6) } as usize;
+    let n = if g.big { rng.range(1, 20) } else { rng.range(1, 4) } as usize;
     let mut rest = 1_000_000_000u32; let mut leaves = vec![];
     for i in 0..n {
         let us = if i + 1 == n && rng.chance(3, 4) { rest } else { rng.below(rest as u64 + 1) as u32 };
@@ -136,17 +136,20 @@ async fn run(mut s: Sim, mut rng: Rng, len: usize) -> Sim {
     let profile = rng.below(4);
     let mut g = bootstrap(&mut s, &mut rng).await;
     for _ in 0..len {
+        if rng.chance(6, 10) && driver_step(&mut s, &mut rng, &mut g).await { continue; }
         let r = rng.below(100);
         let ne = g.eps.len();
         let pick_ep = |rng: &mut Rng, n: usize| if n == 0 { 0 } else { rng.below(n as u64) as usize };
         let honest = match r {
-            0..=5 => { g.clock += *rng.pick(&[1u64, 30, 59, 60, 61, 120, 181, 3600]); s.op(Op::SetClock(g.clock)).await; continue; }
-            6..=12 => { // new epoch
+            0..=7 => { g.clock += match rng.below(4) { 0 => *rng.pick(&[1u64, 59, 60, 61]), 1 => g.calc_grace * 60 - 1, 2 => g.calc_grace.max(g.init_grace) * 60, _ => 3600 };
+                       s.op(Op::SetClock(g.clock)).await; continue; }
+            8..=12 => { // new epoch
                 if rng.chance(1, 5) { let amt = rng.range(1, 5_000_000); s.op(Op::MintTo(K::Ata(b(&K::RdJournal), b(&K::Mint)), amt)).await; }
                 let e = ne as u64; let acc = if rng.chance(14, 15) { g.debt_acc.clone() } else { rng.pick(&g.users).clone() };
                 let ix = s.rd_initialize_distribution(&acc, &g.payer, e);
                 let ix = if rng.chance(1, 6) { fault(&mut rng, ix, &g.universe).0 } else { ix };
-                if s.op(tx(vec![ix])).await { g.eps.push(Ep { e, ..Default::default() }); g.universe.push(K::RdDist(e)); }
+                if s.op(tx(vec![ix])).await { g.eps.push(Ep { e, ..Default::default() }); g.universe.push(K::RdDist(e));
+                    if rng.chance(2, 3) { g.clock += g.calc_grace.max(g.init_grace) * 60 + rng.below(2); s.op(Op::SetClock(g.clock)).await; } }
                 continue; }
             13..=20 if ne > 0 => { // post a debt tree
                 let i = pick_ep(&mut rng, ne); let (t, total) = debt_tree(&mut s, &mut rng, &g);
@@ -263,4 +266,75 @@ async fn run(mut s: Sim, mut rng: Rng, len: usize) -> Sim {
         s.op(tx(vec![ix])).await;
     }
     s
+}
+
+/// one honest step that the tracked state says is enabled (the bank decides; the tracking is only used to aim)
+async fn driver_step(s: &mut Sim, rng: &mut Rng, g: &mut G) -> bool {
+    if g.paused { let ix = s.rd_configure(&g.admin, RdSetting::Paused(false)); if s.op(tx(vec![ix])).await { g.paused = false; } return true; }
+    let ne = g.eps.len();
+    if ne == 0 || (ne < 3 && rng.chance(1, 6)) {
+        g.clock += g.init_grace * 60; s.op(Op::SetClock(g.clock)).await;
+        if rng.chance(1, 3) { let amt = rng.range(1, 5_000_000); s.op(Op::MintTo(K::Ata(b(&K::RdJournal), b(&K::Mint)), amt)).await; }
+        let e = ne as u64; let ix = s.rd_initialize_distribution(&g.debt_acc, &g.payer, e);
+        if s.op(tx(vec![ix])).await { g.eps.push(Ep { e, ..Default::default() }); g.universe.push(K::RdDist(e)); g.clock += g.calc_grace * 60; s.op(Op::SetClock(g.clock)).await; }
+        return true;
+    }
+    let i = rng.below(ne as u64) as usize;
+    let ep = g.eps[i].clone();
+    if ep.debt.is_none() {
+        let (t, total) = debt_tree(s, rng, g);
+        let ix = s.rd_configure_debt(&g.debt_acc, ep.e, t.leaves.len() as u32, total, t.root);
+        if s.op(tx(vec![ix])).await { g.eps[i].debt = Some(t); g.eps[i].total_debt = total; }
+        return true;
+    }
+    if !ep.debt_final { let ix = s.rd_finalize_debt(&g.debt_acc, ep.e, &g.payer); if s.op(tx(vec![ix])).await { g.eps[i].debt_final = true; } return true; }
+    let t = ep.debt.clone().unwrap();
+    let unsettled: Vec<u32> = (0..t.leaves.len() as u32).filter(|x| !ep.settled.contains(x)).collect();
+    if !ep.swept && !unsettled.is_empty() && rng.chance(3, 4) {
+        let idx = *rng.pick(&unsettled);
+        let Leaf::Debt { node, amount } = t.leaves[idx as usize].clone() else { return false };
+        let poor = node == g.nodes[6] || node == g.nodes[7];
+        let Some(p) = s.proof(&t, idx) else { return false };
+        if poor && amount > 0 {
+            if !ep.wo { let ix = s.rd_enable_write_off(ep.e, &g.payer); if s.op(tx(vec![ix])).await { g.eps[i].wo = true; } return true; }
+            let target = if rng.chance(1, 2) { ep.e } else { ep.e + 1 };
+            let ix = s.rd_write_off(&g.debt_acc, ep.e, &node, target, amount, &p);
+            if s.op(tx(vec![ix])).await { g.eps[i].settled.insert(idx); if let Some(te) = g.eps.iter_mut().find(|x| x.e == target) { te.uncollectible += amount; } }
+        } else {
+            if rng.chance(1, 2) { s.op(Op::Airdrop(K::RdDeposit(b(&node)), amount)).await; }
+            let ix = s.rd_pay(ep.e, &node, amount, &p);
+            if s.op(tx(vec![ix])).await { g.eps[i].settled.insert(idx); }
+        }
+        return true;
+    }
+    if ep.rew.is_none() {
+        let t = reward_tree(s, rng, g);
+        let ix = s.rd_configure_rewards(&g.rew_acc, ep.e, t.leaves.len() as u32, t.root);
+        if s.op(tx(vec![ix])).await { g.eps[i].rew = Some(t); }
+        return true;
+    }
+    if !ep.rew_final {
+        if (ne as u64) < ep.e + g.min_epochs { return false; }
+        let ix = s.rd_finalize_rewards(&g.payer, ep.e); if s.op(tx(vec![ix])).await { g.eps[i].rew_final = true; } return true;
+    }
+    if !ep.swept {
+        if ep.e != g.next_sweep { return false; }
+        let sol = ep.total_debt.saturating_sub(ep.uncollectible);
+        if sol > 0 { let z = rng.range(0, 100_000_000_000);
+            let ix = s.sw_buy(&g.fills, &K::Ata(b(&g.buyer), b(&K::Mint)), &g.buyer, &g.users[8], z, sol); s.op(tx(vec![ix])).await; }
+        let ix = s.rd_sweep(ep.e, &g.swap, &g.fills);
+        if s.op(tx(vec![ix])).await { g.eps[i].swept = true; g.next_sweep += 1; }
+        return true;
+    }
+    let rt = ep.rew.clone().unwrap();
+    let todo: Vec<u32> = (0..rt.leaves.len() as u32).filter(|x| !ep.distributed.contains(x)).collect();
+    if todo.is_empty() { return false; }
+    let idx = *rng.pick(&todo);
+    let Leaf::Reward { contributor, unit_share, packed } = rt.leaves[idx as usize].clone() else { return false };
+    let ci = g.svcs.iter().position(|x| *x == contributor).unwrap_or(0);
+    let recs: Vec<K> = g.recips[ci].iter().map(|x| x.0.clone()).collect();
+    let Some(p) = s.proof(&rt, idx) else { return false };
+    let ix = s.rd_distribute(ep.e, &contributor, &g.relayer, &recs, unit_share, packed & 0x3fff_ffff, &p);
+    if s.op(tx(vec![ix])).await { g.eps[i].distributed.insert(idx); } else { g.eps[i].distributed.insert(idx); }
+    true
 }
